@@ -15,7 +15,8 @@ REGISTRY = {
     ),
     "C04": dict(
         level="exploration",
-        units=[dict(pkg=APP, test="TestVerifC04", quick=1600, thorough=60000, shards_quick=16, shards_thorough=16)],
+        units=[dict(pkg=APP, test="TestVerifC04", quick=1600, thorough=60000, shards_quick=16, shards_thorough=16),
+               dict(pkg=APP, test="TestVerifC04Enumerate", mode="enum", quick=0, thorough=0, shards_quick=16, shards_thorough=16)],
     ),
     "C09": dict(
         level="exploration",
